@@ -327,12 +327,68 @@ def _floordiv_int(a, b):
     return z3.If(b > 0, q, z3.If(a % b == 0, q, q - 1))
 
 
+def _lin_over_ints(t):
+    """If the real term t is  c0 + sum c_i * to_real(n_i)  with rational c_i and int-sorted n_i,
+    return (dict{int-term -> Fraction}, c0) else None."""
+    k = t.decl().kind()
+    if z3.is_rational_value(t):
+        return {}, F(t.numerator_as_long(), t.denominator_as_long())
+    if k == z3.Z3_OP_TO_REAL:
+        return {t.arg(0): F(1)}, F(0)
+    if k == z3.Z3_OP_UMINUS:
+        r = _lin_over_ints(t.arg(0))
+        if r is None:
+            return None
+        return {x: -c for x, c in r[0].items()}, -r[1]
+    if k == z3.Z3_OP_ADD or k == z3.Z3_OP_SUB:
+        acc, c0 = {}, F(0)
+        for idx, ch in enumerate(t.children()):
+            r = _lin_over_ints(ch)
+            if r is None:
+                return None
+            sign = -1 if (k == z3.Z3_OP_SUB and idx > 0) else 1
+            for x, c in r[0].items():
+                key = next((y for y in acc if y.eq(x)), x)
+                acc[key] = acc.get(key, F(0)) + sign * c
+            c0 += sign * r[1]
+        return acc, c0
+    if k == z3.Z3_OP_MUL:
+        ch = t.children()
+        consts = [c for c in ch if z3.is_rational_value(c)]
+        rest = [c for c in ch if not z3.is_rational_value(c)]
+        if len(rest) != 1:
+            return None
+        r = _lin_over_ints(rest[0])
+        if r is None:
+            return None
+        m = F(1)
+        for c in consts:
+            m *= F(c.numerator_as_long(), c.denominator_as_long())
+        return {x: c * m for x, c in r[0].items()}, r[1] * m
+    return None
+
+
 def _floor_real(t):
+    """floor of a real term.  A rational-affine combination of integer terms becomes an integer
+    division by a constant (z3 decides `div` by constants well, and to_int of to_real badly)."""
+    t = z3.simplify(t)
+    r = _lin_over_ints(t)
+    if r is not None and r[0]:
+        coeffs, c0 = r
+        Q = 1
+        for c in list(coeffs.values()) + [c0]:
+            Q = Q * c.denominator // math.gcd(Q, c.denominator)
+        e = z3.IntVal(int(c0 * Q))
+        for x, c in coeffs.items():
+            e = e + int(c * Q) * x
+        if Q == 1:
+            return z3.simplify(e)
+        return e / Q  # z3 int division is floor for a positive divisor
     return z3.ToInt(t)
 
 
 def _ceil_real(t):
-    f = z3.ToInt(t)
+    f = _floor_real(t)
     return z3.If(z3.ToReal(f) == t, f, f + 1)
 
 
@@ -412,7 +468,7 @@ class SymNum(Sym):
             raise ZeroDivisionError("integer division or modulo by zero")
         if _is_int(a):
             return wrap(_floordiv_int(a, b))
-        return wrap(z3.ToReal(z3.ToInt(a / b)))
+        return wrap(z3.ToReal(_floor_real(a / b)))
 
     def __floordiv__(self, o):
         return self._fdiv(o)
@@ -431,7 +487,7 @@ class SymNum(Sym):
             raise ZeroDivisionError("integer division or modulo by zero")
         if _is_int(a):
             return wrap(a - b * _floordiv_int(a, b))
-        return wrap(a - b * z3.ToReal(z3.ToInt(a / b)))
+        return wrap(a - b * z3.ToReal(_floor_real(a / b)))
 
     def __mod__(self, o):
         return self._mod(o)
@@ -547,8 +603,8 @@ class SymReal(SymNum):
         if nd is not None:
             raise Abort("round(x, ndigits) on symbolic real")
         t = self.t
-        f = z3.ToInt(t)
-        h = z3.ToInt(t + z3.RealVal("1/2"))
+        f = _floor_real(t)
+        h = _floor_real(t + z3.RealVal("1/2"))
         return wrap(z3.If(t != z3.ToReal(f) + z3.RealVal("1/2"), h, z3.If(f % 2 == 0, f, f + 1)))
 
     def __float__(self):
@@ -642,7 +698,7 @@ def s_trunc(x):
             return SymInt(z3.simplify(it))
         # fork on the sign instead of an ite around to_int; keep ONE canonical to_int(x) term per
         # x (z3 relates to_int(x) and to_int(-x) badly): trunc(x) for x < 0 is ceil(x)
-        f = z3.ToInt(x.t)
+        f = _floor_real(x.t)
         if ctx().decide(x.t >= 0):
             return SymInt(z3.simplify(f))
         if ctx().decide(x.t == z3.ToReal(f)):
@@ -787,17 +843,45 @@ def _flat_args(a):
     return a
 
 
-def s_min(*a, **kw):
-    if kw:
-        return min(*a, **kw)
+def m_min(*a):
+    """merging min: one ite term, no fork"""
     a = _flat_args(a)
-    if not any(isinstance(x, Sym) for x in a):
-        return min(a)
     r = a[0]
     for x in a[1:]:
         p, q = _coerce(r, x)
         r = wrap(z3.If(q < p, q, p))
     return r
+
+
+def m_max(*a):
+    a = _flat_args(a)
+    r = a[0]
+    for x in a[1:]:
+        p, q = _coerce(r, x)
+        r = wrap(z3.If(q > p, q, p))
+    return r
+
+
+def _any_real(a):
+    return any(isinstance(x, (SymReal, float, F)) for x in a)
+
+
+def s_min(*a, **kw):
+    """min as injected into the repo's modules: integers merge into one ite term (pure LIA, keeps
+    path counts low); reals fork like the builtin would, because real results usually flow into
+    floor/ceil and an ite under to_int is what z3 cannot digest."""
+    if kw:
+        return min(*a, **kw)
+    a = _flat_args(a)
+    if not any(isinstance(x, Sym) for x in a):
+        return min(a)
+    if _any_real(a):
+        r = a[0]
+        for x in a[1:]:
+            if x < r:
+                r = x
+        return r
+    return m_min(a)
 
 
 def s_max(*a, **kw):
@@ -806,11 +890,13 @@ def s_max(*a, **kw):
     a = _flat_args(a)
     if not any(isinstance(x, Sym) for x in a):
         return max(a)
-    r = a[0]
-    for x in a[1:]:
-        p, q = _coerce(r, x)
-        r = wrap(z3.If(q > p, q, p))
-    return r
+    if _any_real(a):
+        r = a[0]
+        for x in a[1:]:
+            if x > r:
+                r = x
+        return r
+    return m_max(a)
 
 
 def s_abs(x):
